@@ -261,7 +261,9 @@ def schedules(ctx):
     # ---- buy and hold
     c = 'BuyAndHoldRebalance'
     fn = ctx.fn(c + '._generate_rebalances')
-    ps = summarise(ctx, fn, policy=default_policy)
+    # the calendar arithmetic may live in plain functions of the schedule package
+    ps = summarise(ctx, fn, policy=lambda caller, callee, depth: default_policy(caller, callee, depth) or
+                   (depth <= 6 and callee.cls is None and callee.path.startswith('qstrader/system/rebalance/')))
     sd = A('self', 'start_dt')
     isb = ('call', ('ext', 'BOOL'), (('call', ('ext', 'LEN'), (('call', ('ext', 'pandas.bdate_range'), (sd, sd), ()),), ()),), ())
     for p in ps:
@@ -275,7 +277,12 @@ def schedules(ctx):
             # not the tabled bdate_range idiom: evaluate the test as a table over the weekday of the start
             verdicts = set()
             for wd in range(7):
-                nv = Valuation(nums={'self.start_dt.weekday()': wd, 'self.start_dt.isoweekday()': wd + 1, 'self.start_dt.dayofweek': wd, 'self.start_dt.day_of_week': wd})
+                nxt_ = {0: 1, 1: 1, 2: 1, 3: 1, 4: 3, 5: 2, 6: 1}[wd]
+                nv = Valuation(nums={'self.start_dt.weekday()': wd, 'self.start_dt.isoweekday()': wd + 1, 'self.start_dt.dayofweek': wd, 'self.start_dt.day_of_week': wd,
+                                     # instants as day numbers relative to the start; one business day after a day of this weekday
+                                     'self.start_dt': 0, 'pandas.tseries.offsets.BusinessDay()': nxt_, 'pandas.tseries.offsets.BDay()': nxt_,
+                                     'pandas.tseries.offsets.BusinessDay(1)': nxt_, 'pandas.tseries.offsets.BDay(1)': nxt_,
+                                     'pandas.tseries.offsets.BusinessDay(n=1)': nxt_, 'pandas.tseries.offsets.BDay(n=1)': nxt_})
                 got = [nv.evalbool(cnd) for cnd, v, _ in p.conds]
                 if None in got:
                     verdicts.add(None)
@@ -286,11 +293,22 @@ def schedules(ctx):
                     is_next = any(T.teq(p.value, ('list', (T.t_add(sd, ('call', ('ext', nm), (), ())),))) for nm in
                                   ('pandas.tseries.offsets.BusinessDay', 'pandas.tseries.offsets.BDay'))
                     okw = (is_start and wd <= 4) or (is_next and wd >= 5)
+                    if not is_start and not is_next:
+                        # some other way of writing the instant: as an offset in days from the start, for a start on this weekday
+                        off_ = nv.value(p.value[1][0]) if p.value is not None and p.value[0] == 'list' and len(p.value[1]) == 1 else None
+                        if off_ is None:
+                            verdicts.add(None)
+                            break
+                        okw = off_ == (0 if wd <= 4 else 7 - wd)
                     verdicts.add(okw)
                     if not okw:
                         ctx.violation('C13.S1', 'buy-and-hold: the instant is the start if it is a business day, else the next business day', fn.site(),
-                                      'a start on weekday %d (0=Mon) gives %s' % (wd, fmt(p.value)[:80]), key='C13.S1|bah|weekday-table')
+                                      'READ: a start on weekday %d (0=Mon) gives %s' % (wd, fmt(p.value)[:80]), key='C13.S1|bah|weekday-table')
                         break
+            if None in verdicts:
+                ctx.undecided('C13.S1', 'buy-and-hold: the instant is the start if it is a business day, else the next business day', fn.site(),
+                              'the schedule %s on path [%s] is not evaluated as an offset from the start' % (fmt(p.value)[:80], cond_str(p)[:80]))
+                continue
             if None not in verdicts:
                 if verdicts and all(verdicts):
                     ctx.holds('C13.S1', 'buy-and-hold weekday table [%s]' % cond_str(p)[:60], fn.site())
